@@ -26,6 +26,7 @@ from .scenariomanager import ScenarioManagerHybrid
 from .scenariorunners import HybridRunner
 from .scenariorunners import SdRunner
 from .util.didyoumean import didyoumean
+from .util import floating_point as fp
 from .visualizations import visualizer
 
 
@@ -582,8 +583,11 @@ class bptk():
         self.session_state["settings_log"][step] = settings
         self.session_state["results_log"][step] = simulation_results
 
-        # move session step forward
-        self.session_state["step"]=step+dt
+        # move session step forward: snap the clock to the decimal grid (as timerange and Model.memoize do)
+        # so that rounding errors of the float addition neither accumulate nor show up in the step labels
+        starttime = self.session_state["starttime"]
+        self.session_state["step"] = fp.normalize(step+dt, base=dt, offset=starttime,
+                                                  precision=max(fp.scale(starttime), fp.scale(dt)))
 
         return flat_results if flat else simulation_results
 
